@@ -397,3 +397,88 @@ func (c *Ctx) rulesC18net() {
 		c.undecided(fmt.Sprintf("C18.net: only %d NetworkMachine mutation methods found", n))
 	}
 }
+
+// rulesC18flat: a pipe handler does not decide by the target's momentary
+// activity whether to forward the event.
+func (c *Ctx) rulesC18flat() {
+	c.rule("C18.flat", "in the handler closures built by pipes.add / pipes.remove (and BindAny's) no return that skips the target mutation is decided by the target's current activity (target.Is/Is1/Not/Not1/Any…): the target may still have the opposite mutation queued, so a skipped Remove after a queued Add (or the reverse) leaves the target opposite to the source at quiescence")
+	activity := map[string]bool{"Is": true, "Is1": true, "Not": true, "Not1": true, "Any": true, "Any1": true, "IsErr": true, "Has": false}
+	n := 0
+	for _, ctor := range []string{"add", "remove", "BindAny"} {
+		f := c.fnOpt(pp + ":" + ctor)
+		if f == nil {
+			continue
+		}
+		for _, clo := range f.AnonFuncs {
+			if clo.Signature.Params().Len() != 1 {
+				continue
+			}
+			n++
+			bad := ""
+			var pos = clo.Pos()
+			for _, b := range clo.Blocks {
+				if len(b.Instrs) == 0 {
+					continue
+				}
+				ifi, ok := b.Instrs[len(b.Instrs)-1].(*ssa.If)
+				if !ok {
+					continue
+				}
+				// condition consults the target's activity?
+				which := ""
+				valueTree(ifi.Cond, 6, func(v ssa.Value) {
+					if call, ok := v.(*ssa.Call); ok && call.Call.IsInvoke() {
+						if nt := namedOf(call.Call.Value.Type()); nt != nil && nt.Obj().Name() == "Api" && activity[call.Call.Method.Name()] {
+							which = call.Call.Method.Name()
+						}
+					}
+				})
+				if which == "" {
+					continue
+				}
+				// does one outcome return without any target mutation?
+				for _, succ := range b.Succs {
+					seen := map[*ssa.BasicBlock]bool{}
+					var skips func(x *ssa.BasicBlock) bool
+					skips = func(x *ssa.BasicBlock) bool {
+						if seen[x] {
+							return false
+						}
+						seen[x] = true
+						for _, ins := range x.Instrs {
+							if ci, ok := ins.(ssa.CallInstruction); ok && ci.Common().IsInvoke() {
+								if nt := namedOf(ci.Common().Value.Type()); nt != nil && nt.Obj().Name() == "Api" {
+									switch ci.Common().Method.Name() {
+									case "EvAdd", "EvAdd1", "Add", "Add1", "EvRemove", "EvRemove1", "Remove", "Remove1", "Set", "EvSet":
+										return false
+									}
+								}
+							}
+							if _, ok := ins.(*ssa.Return); ok {
+								return true
+							}
+						}
+						for _, y := range x.Succs {
+							if skips(y) {
+								return true
+							}
+						}
+						return false
+					}
+					if skips(succ) {
+						bad, pos = which, ifi.Pos()
+						if pos == token.NoPos {
+							pos = b.Instrs[0].Pos()
+						}
+					}
+				}
+			}
+			kind := ctor
+			c.check(bad == "", "C18.flat", "pipes."+kind+" handler forwards every event whatever the target's momentary activity", pos,
+				"the handler returns without mutating the target when target."+bad+"(…) says the state is already as wanted; a still-queued opposite mutation on the target then wins (demo: target busy, source Add then Remove → Remove skipped, target stays active)")
+		}
+	}
+	if n < 2 {
+		c.undecided(fmt.Sprintf("C18.flat: only %d pipe handler closures found", n))
+	}
+}
